@@ -16,6 +16,10 @@ engines: dict[str, list[str]] = {"lean-model": [], "pyextract": [], "purediff": 
 for p in props:
     pid = p["id"]
     f = ROOT / "harness" / "props" / f"{pid.lower()}.py"
+    claimed_list = (ROOT / "tools" / "claimed.txt").read_text().split()
+    if f.exists() and pid not in claimed_list:
+        na.append({"property_id": pid, "reason": "check under construction in this tree (not yet validated on several seeds); not claimed yet"})
+        continue
     if not f.exists():
         na.append({"property_id": pid, "reason": "no check built yet in this tree (planned in DESIGN.md §8); not claimed"})
         continue
